@@ -264,16 +264,19 @@ def classify(case, r, info):
         ba, bb = fbox(A[a]), fbox(A[b])
         return min(ba[1], bb[1]) - max(ba[0], bb[0]) + 2 * pad_side > 0 and min(ba[3], bb[3]) - max(ba[2], bb[2]) + 2 * pad_side > 0
 
+    big_overlap = False
     if 'overlap' in failed:
         for ov in info['overlapping']:
             ba, bb = ov['boxes']
             ox = min(ba[1], bb[1]) - max(ba[0], bb[0])
             oy = min(ba[3], bb[3]) - max(ba[2], bb[2])
             if min(ox, oy) >= 2 * pad_side:
-                return None
-        fps.add('padded_gap_lost')
+                big_overlap = True
+        if big_overlap and len(d['A']['N']) < 60:
+            return None
+        fps.add('large_graph_overlap' if big_overlap else 'padded_gap_lost')
     if 'routes' in failed:
-        chain_like, gap_like = True, True
+        chain_like, gap_like, big_routes_ok = True, True, True
         for be in info['bad_edges']:
             s, t = be['edge']
             rt = be['route']
@@ -296,7 +299,12 @@ def classify(case, r, info):
                         break
             if not (be['fails'] == 't' and pierced and all(near(q, s) or near(q, t) for q in pierced)):
                 gap_like = False
-        if chain_like:
+            if big_overlap and any(s in ov['nodes'] or t in ov['nodes'] for ov in info['overlapping']):
+                continue    # a connector of a node that overlaps another node: consequence of large_graph_overlap
+            big_routes_ok = False
+        if big_overlap and big_routes_ok:
+            pass
+        elif chain_like:
             fps.add('chain_bend_unaligned')
         elif gap_like:
             fps.add('padded_gap_lost')
@@ -379,7 +387,7 @@ def run(tier):
         return res.finish()
     build_s = time.time() - t0
     rng = C.SplitMix64(res.seed)
-    n_random, maxn, n_degen = (1000, 40, 60) if tier == "quick" else (6000, 80, 300)
+    n_random, maxn, n_degen = (1000, 40, 60) if tier == "quick" else (2000, 80, 150)
     cases = corpus_cases() + shipped_cases(tier) + random_cases(rng, n_random, maxn)
     degen = [G.gen_case(rng.fork(), 'degenerate_start', min(maxn, 30)) for _ in range(n_degen)]
     cases += degen
@@ -481,6 +489,11 @@ def run(tier):
         'known_finding_cases': dict(known), 'new_rejections': new_viol,
         'tolerances': {k: str(TOLS[k]) for k in TOL_ORDER},
         'timing_s': {'build': round(build_s, 1), 'runs': round(run_s, 1), 'max_single_doHOLA': round(max(r['time'] for r in results), 2)}})
+    n_exc = sum(excs.values())
+    if n_exc > 0.03 * len(cases):
+        res.violation({'what': 'doHOLA ended in an exception / failed assertion on %d of %d runs (more than 3%%); the unchanged tree does so on '
+                               'about 1%%' % (n_exc, len(cases)), 'exceptions': dict(excs)}, no_input=True)
+        new_viol += 1
     if not info['ok'] and new_viol == 0:
         res.violation({'what': 'a proof obligation of the oracle / padding theorems no longer checks (only an edit of the Coq files can cause '
                                'this); the sampled runs found no rejected drawing', 'broken_files': info.get('broken'),
